@@ -932,6 +932,34 @@ async fn one_config(a: Args, idx: usize, proto: Proto, transport: Transport) -> 
     // and for datagram associations the UDP echo target
     let greeter = super::c12::start_greeter().await;
     let echo_addr = Addr::V4([127, 0, 0, 1], greeter.as_ref().map(|g| g.0).unwrap_or(target.port));
+    // ---------------- part D': peers that are SLOW, not silent - the path holds the transport handshake (or, over plain tcp,
+    // the request) for 12 s after its first bytes, then everything goes on and a perfectly valid request follows. Opened
+    // now, judged with part D.
+    let mut slow: Vec<tokio::task::JoinHandle<Option<usize>>> = Vec::new();
+    let mut slow_paths = Vec::new();
+    if !matches!(transport, Transport::Quic) {
+        for after in [3usize, 40] {
+            let Some((pport, h)) = super::pipe::slow_path(d.server_port, after, Duration::from_secs(12)).await else { continue };
+            slow_paths.push(h);
+            let mut c = RefClient::new(&cfg, &echo_addr, &mut rng, now_s() + 12, ClientOpts::default());
+            let w = c.write(b"a valid request behind a slow handshake", &mut rng);
+            rep.evaluations += 1;
+            rep.mon("slow-handshakes-held-for-12-s-then-completed:opened", 1);
+            slow.push(tokio::spawn(async move {
+                let mut p = Pipe::connect_within(transport, pport, Duration::from_secs(20)).await.ok()?;
+                p.send(&w).await.ok()?;
+                let mut got = 0usize;
+                while let Ok(Ok(Some(b))) = tokio::time::timeout(Duration::from_secs(16), p.recv()).await {
+                    got += b.len();
+                    if got > 0 {
+                        break;
+                    }
+                }
+                p.abort();
+                Some(got)
+            }));
+        }
+    }
     let dgram_addr = Addr::V4([127, 0, 0, 1], udp_target.as_ref().map(|t| t.port).unwrap_or(target.port));
     let n_mut = if a.thorough { 60 } else { 16 };
     for k in 0..n_mut {
@@ -1301,6 +1329,15 @@ async fn one_config(a: Args, idx: usize, proto: Proto, transport: Transport) -> 
             tokio::time::sleep(Duration::from_secs(33) - held).await;
         }
         rep.mon("seconds_the_stalled_handshakes_were_held", stalled_since.elapsed().as_secs());
+        for h in slow.drain(..) {
+            match tokio::time::timeout(Duration::from_secs(25), h).await {
+                Ok(Ok(Some(n))) if n > 0 => rep.mon("slow-handshakes-held-for-12-s-then-completed:answered", 1),
+                _ => rep.mon("slow-handshakes-held-for-12-s-then-completed:not-answered", 1),
+            }
+        }
+        for h in slow_paths.drain(..) {
+            h.abort();
+        }
         report_node(&mut rep, &cfgname, "timing-out-peers-that-stall-mid-handshake", "client", &mut pair.client, &mut seen_c, &d, a.seed);
         report_node(&mut rep, &cfgname, "timing-out-peers-that-stall-mid-handshake", "server", &mut pair.server, &mut seen_s, &d, a.seed);
         let r = run_batch(reg.clone(), &d, target.port, vec![spec(base + 6, LocalKind::Socks5V4)], 1, Duration::from_secs(15)).await;
